@@ -19,9 +19,9 @@ import (
 	"github.com/bitcoin-sv/block-headers-service/metrics"
 	"github.com/bitcoin-sv/block-headers-service/repository"
 	"github.com/bitcoin-sv/block-headers-service/service"
-	peerpkg "github.com/bitcoin-sv/block-headers-service/transports/p2p/peer"
 	"github.com/bitcoin-sv/block-headers-service/transports/http/endpoints"
 	httpserver "github.com/bitcoin-sv/block-headers-service/transports/http/server"
+	peerpkg "github.com/bitcoin-sv/block-headers-service/transports/p2p/peer"
 	"github.com/gin-gonic/gin"
 	"github.com/jmoiron/sqlx"
 	"github.com/rs/zerolog"
